@@ -4,6 +4,7 @@
 -/
 import Mathlib.Analysis.SpecialFunctions.Log.Basic
 import Mathlib.Tactic.Ring
+import Mathlib.Tactic.Linarith
 import Mathlib.Algebra.BigOperators.Group.List.Basic
 import Batchie.Model.Dbal
 
@@ -285,5 +286,177 @@ theorem scorerScore_eq (n : Nat) (D : Nat → Nat → ℝ) (maxChunk : Nat) (tri
     apply List.map_congr_left
     intro kp hm
     simp [lookup_of_nodup plates hk kp hm]
+
+/-! ### permutations, positivity, the `logsumexp` shift -/
+
+theorem prodL_eq_prod (l : List ℝ) : prodL l = l.prod := by
+  induction l with
+  | nil => simp [prodL]
+  | cons a l ih => simp only [prodL, List.foldr_cons, List.prod_cons] at ih ⊢; rw [ih]
+
+theorem scoreDirect_perm_triples (D : Nat → Nat → ℝ) (f : ℝ) (p : Plate ℝ) {ts ts' : List Triple}
+    (h : ts.Perm ts') : scoreDirect D f p ts = scoreDirect D f p ts' := by
+  unfold scoreDirect
+  rw [(h.map _).sum_eq]
+
+theorem tripleWeight_perm (D : Nat → Nat → ℝ) (f : ℝ) {p p' : Plate ℝ} (h : p.Perm p') (t : Triple) :
+    tripleWeight D f p t = tripleWeight D f p' t := by
+  unfold tripleWeight
+  rw [prodL_eq_prod, prodL_eq_prod, (h.map _).prod_eq]
+
+theorem scoreDirect_perm_experiments (D : Nat → Nat → ℝ) (f : ℝ) {p p' : Plate ℝ} (h : p.Perm p')
+    (ts : List Triple) : scoreDirect D f p ts = scoreDirect D f p' ts := by
+  unfold scoreDirect
+  congr 2
+  apply List.map_congr_left
+  intro t _
+  exact tripleWeight_perm D f h t
+
+theorem prodL_pos (l : List ℝ) (h : ∀ x ∈ l, 0 < x) : 0 < prodL l := by
+  induction l with
+  | nil => simp [prodL]
+  | cons a l ih =>
+    simp only [prodL, List.foldr_cons]
+    exact mul_pos (h a (by simp)) (ih (fun x hx => h x (by simp [hx])))
+
+theorem gaussTerm_pos (e : Experiment ℝ) (t : Triple) : 0 < gaussTerm e t := by
+  unfold gaussTerm invSqrt
+  exact mul_pos (Real.exp_pos _) (Real.exp_pos _)
+
+theorem tripleWeight_nonneg (D : Nat → Nat → ℝ) (f : ℝ) (p : Plate ℝ) (t : Triple) :
+    0 ≤ tripleWeight D f p t := by
+  unfold tripleWeight
+  split
+  · exact le_refl _
+  · exact le_of_lt (mul_pos (Real.exp_pos _) (prodL_pos _ (by
+      intro x hx; obtain ⟨e, _, rfl⟩ := List.mem_map.mp hx; exact gaussTerm_pos e t)))
+
+theorem tripleWeight_pos_iff (D : Nat → Nat → ℝ) (f : ℝ) (p : Plate ℝ) (t : Triple) :
+    0 < tripleWeight D f p t ↔ distSum D t ≠ 0 := by
+  unfold tripleWeight
+  by_cases hz : distSum D t = 0
+  · simp [hz]
+  · simp only [expLog_isZero, hz, decide_false, Bool.false_eq_true, if_false, ne_eq, not_false_eq_true, iff_true]
+    exact mul_pos (Real.exp_pos _) (prodL_pos _ (by
+      intro x hx; obtain ⟨e, _, rfl⟩ := List.mem_map.mp hx; exact gaussTerm_pos e t))
+
+theorem sum_pos_iff_of_nonneg (l : List ℝ) (h : ∀ x ∈ l, 0 ≤ x) : 0 < l.sum ↔ ∃ x ∈ l, 0 < x := by
+  induction l with
+  | nil => simp
+  | cons a l ih =>
+    have ha := h a (by simp)
+    have hl : ∀ x ∈ l, 0 ≤ x := fun x hx => h x (by simp [hx])
+    have hs : 0 ≤ l.sum := List.sum_nonneg hl
+    simp only [List.sum_cons, List.mem_cons, exists_eq_or_imp]
+    constructor
+    · intro hpos
+      by_cases h0 : 0 < a
+      · exact Or.inl h0
+      · have : a = 0 := le_antisymm (not_lt.mp h0) ha
+        right; apply (ih hl).mp; linarith
+    · rintro (h0 | hex)
+      · linarith
+      · have := (ih hl).mpr hex; linarith
+
+/-- the sum inside the logarithm is positive exactly when some triple has non-zero distance -/
+theorem weightSum_pos_iff (D : Nat → Nat → ℝ) (f : ℝ) (p : Plate ℝ) (ts : List Triple) :
+    0 < (ts.map (tripleWeight D f p)).sum ↔ ∃ t ∈ ts, distSum D t ≠ 0 := by
+  rw [sum_pos_iff_of_nonneg _ (by
+    intro x hx; obtain ⟨t, _, rfl⟩ := List.mem_map.mp hx; exact tripleWeight_nonneg D f p t)]
+  constructor
+  · rintro ⟨x, hx, hpos⟩
+    obtain ⟨t, ht, rfl⟩ := List.mem_map.mp hx
+    exact ⟨t, ht, (tripleWeight_pos_iff D f p t).mp hpos⟩
+  · rintro ⟨t, ht, hne⟩
+    exact ⟨_, List.mem_map_of_mem ht, (tripleWeight_pos_iff D f p t).mpr hne⟩
+
+/-- `scipy.special.logsumexp` subtracts the row maximum `M` first; over the reals that is the
+    same as the unshifted form whenever the sum is positive -/
+theorem logSumExp_shift (xs : List (Option ℝ)) (M : ℝ) (hpos : 0 < (xs.map expOrZero).sum) :
+    logSumExp (xs.map (fun o => o.map (fun x => x - M))) + M = logSumExp xs := by
+  unfold logSumExp
+  have h : ((xs.map (fun o => o.map (fun x => x - M))).map expOrZero).sum
+      = Real.exp (-M) * (xs.map expOrZero).sum := by
+    clear hpos
+    induction xs with
+    | nil => simp
+    | cons o xs ih =>
+      simp only [List.map_cons, List.sum_cons, ih, mul_add]
+      congr 1
+      cases o with
+      | none => simp
+      | some x => simp [sub_eq_add_neg, Real.exp_add, mul_comm]
+  rw [h]
+  simp only [expLog_log]
+  rw [Real.log_mul (Real.exp_pos _).ne' hpos.ne', Real.log_exp]
+  ring
+
+/-! ### all triples; the three kernel entry points -/
+
+theorem allTriples_valid (n : Nat) : ∀ t ∈ allTriples n, TripleValid n t := by
+  intro t ht
+  simp only [allTriples, List.mem_flatMap, List.mem_map, List.mem_range] at ht
+  obtain ⟨a, ha, b, hb, c, hc, rfl⟩ := ht
+  exact ⟨ha, by simp only []; omega, by simp only []; omega⟩
+
+theorem valid_of_perm {n : Nat} {ts : List Triple} (h : ts.Perm (allTriples n)) : ∀ t ∈ ts, TripleValid n t :=
+  fun t ht => allTriples_valid n t (h.mem_iff.mp ht)
+
+theorem scoreHeteroscedastic_eq (n : Nat) (D : Nat → Nat → ℝ) (f : ℝ) (triples : List Triple)
+    (ht : ∀ t ∈ triples, TripleValid n t) (group : List (Plate ℝ)) :
+    scoreHeteroscedastic D f triples (group.map (meansArray n)) (group.map (varsArray n))
+      = group.map (fun p => scoreDirect D f p triples) := by
+  rw [← scoreGroup_eq n D f triples ht group]
+  unfold scoreHeteroscedastic scoreGroup
+  rw [List.map_map]
+  rfl
+
+theorem scoreVectorised_wide (n : Nat) (D : Nat → Nat → ℝ) (f : ℝ) (triples : List Triple)
+    (ht : ∀ t ∈ triples, TripleValid n t) (group : List (Plate ℝ)) (hh W : Nat) :
+    scoreVectorised D f triples (group.map (fun p => padArray 0 hh W (meansArray n p)))
+        (group.map (fun p => padArray none hh W (someArray (varsArray n p))))
+      = group.map (fun p => scoreDirect D f p triples) := by
+  unfold scoreVectorised
+  rw [zipWith_map_same]
+  apply List.map_congr_left
+  intro p _
+  exact scorePlateDense_padded D f n _ _ _ p triples ht
+
+/-- a plate whose experiments all have the per-sample variances `w` -/
+def homPlate (ms : List (Nat → ℝ)) (w : Nat → ℝ) : Plate ℝ := ms.map (fun m => { m := m, v := w })
+
+theorem maxL_replicate (n L : Nat) (hn : 0 < n) : maxL (List.replicate n L) = L := by
+  induction n with
+  | zero => omega
+  | succ k ih =>
+    cases k with
+    | zero => simp [maxL]
+    | succ k => 
+      have := ih (by omega)
+      simp only [maxL, List.replicate_succ, List.foldr_cons] at this ⊢
+      rw [this]; simp
+
+theorem shape1_meansArray (n : Nat) (hn : 0 < n) (p : Plate ℝ) : shape1 (meansArray n p) = p.length := by
+  simp [shape1, meansArray, Function.comp_def, maxL_replicate _ _ hn]
+
+theorem homoscedasticRagged_eq (n : Nat) (hn : 0 < n) (gs : List (List (Nat → ℝ) × (Nat → ℝ))) :
+    homoscedasticRagged (gs.map (fun g => meansArray n (homPlate g.1 g.2))) (gs.map (fun g => (List.range n).map g.2))
+      = gs.map (fun g => varsArray n (homPlate g.1 g.2)) := by
+  unfold homoscedasticRagged
+  rw [zipWith_map_same]
+  apply List.map_congr_left
+  intro g _
+  simp [shape1_meansArray n hn, varsArray, homPlate, Function.comp_def]
+
+theorem scoreHomoscedastic_eq (n : Nat) (hn : 0 < n) (D : Nat → Nat → ℝ) (f : ℝ) (triples : List Triple)
+    (ht : ∀ t ∈ triples, TripleValid n t) (gs : List (List (Nat → ℝ) × (Nat → ℝ))) :
+    scoreHomoscedastic D f triples (gs.map (fun g => meansArray n (homPlate g.1 g.2)))
+        (gs.map (fun g => (List.range n).map g.2))
+      = gs.map (fun g => scoreDirect D f (homPlate g.1 g.2) triples) := by
+  have h := scoreHeteroscedastic_eq n D f triples ht (gs.map (fun g => homPlate g.1 g.2))
+  simp only [List.map_map, Function.comp_def] at h
+  rw [← h]
+  unfold scoreHomoscedastic scoreHeteroscedastic
+  rw [homoscedasticRagged_eq n hn]
 
 end Batchie.Dbal
